@@ -222,9 +222,6 @@ func modelOracle(c *kit.Case) error {
 				if ci >= rowCells[ri] {
 					break // padded cell: not written in the source
 				}
-				if strings.TrimSpace(td.TextContent()) == "" && len(td.Children) == 0 {
-					continue // a blank cell is indistinguishable from a padded one
-				}
 				if got := alignOf(cfg, td); got != want[aligns[ci]] {
 					return kit.Violf("alignment", "row %d cell %d has alignment %q, column says %q: %q -> %q", ri, ci, got, want[aligns[ci]], src, out)
 				}
@@ -367,9 +364,8 @@ func TestTableModel(t *testing.T) {
 		var hc []string
 		for i := 0; i < h; i++ {
 			c := safeCell(drawCell(t))
-			if (i == 0 || i == h-1) && strings.TrimSpace(c) == "" {
-				c = "h" // a blank first/last cell next to an optional outer pipe is ambiguous
-			}
+			// (a blank first / last cell is written with its outer pipe, see writeRow: with the pipe there the
+			// cell is between two pipes like any other)
 			hc = append(hc, c)
 		}
 		lines = append(lines, writeRow(t, hc, h == 1 || hasPara && false))
@@ -403,9 +399,7 @@ func TestTableModel(t *testing.T) {
 			var rc []string
 			for i := 0; i < k; i++ {
 				cell := safeCell(drawCell(t))
-				if (i == 0 || i == k-1) && strings.TrimSpace(cell) == "" {
-					cell = "z"
-				}
+
 				rc = append(rc, cell)
 			}
 			// the written row must keep k cells: a blank last cell needs the trailing pipe (writeRow does that)
